@@ -497,10 +497,16 @@ ASSUME = ["count < 2^58 (no size_t wrap in varintFloatMaxEncodedSize; the size_m
           "malloc succeeds (failure paths are C18)",
           "precision in {FULL,HIGH,MEDIUM,LOW}, mode in {INDEPENDENT,COMMON_EXPONENT,DELTA_EXPONENT} for the accuracy statements"]
 
+SRC_TRUSTED = ["gen/c2coq.py + CSem.v for the *_src theorems (C-to-Gallina translator, clang 14 typed AST -> "
+               "coq/gen/Src_leaf_float.v via gen/c2coq_leaf.py: truncateMantissa / expandMantissa regenerated from the "
+               "current source on every run; subset and assumptions in the translator's docstring); the renderings are "
+               "tied to the compiled C by the translator, not by proof"]
+
 PARTS = {
-    "C07": dict(coq_props=["Properties_C07_float", "Properties_C07_float_real"], files=FILES, rule=RULE_C07, generate=generate_C07,
+    "C07": dict(coq_props=["Properties_C07_float", "Properties_C07_float_real", "Properties_C07_float_src"], files=FILES,
+                rule=RULE_C07, generate=generate_C07,
                 oracles={"float_rt": o_rt_C07, "float_auto": o_auto_C07}, classify=classify, search=search,
-                assumptions=ASSUME, trusted_base=TRUSTED, configs_quick=["pinned", "O0"]),
+                assumptions=ASSUME, trusted_base=TRUSTED + SRC_TRUSTED, configs_quick=["pinned", "O0"]),
     "C03": dict(coq_props=["Properties_C03_float"], files=FILES, rule=RULE_C03, generate=generate_C03,
                 oracles={"float_rt": o_bound, "float_auto": o_bound, "float_size": o_size}, classify=classify,
                 search=search, assumptions=ASSUME, trusted_base=TRUSTED, configs_quick=["pinned", "O0"]),
